@@ -626,6 +626,8 @@ func (c *Ctx) metaConvertByFolding() (string, int, bool) {
 		{{"key", "Am"}, {"bpm", "90"}},
 		{{"a", "1"}, {"b", "2"}, {"a", "3"}, {"c", "1"}},
 		{{"x", "y"}, {"y", "x"}},
+		// texts are kept as written: two blanks, a tab, a line break, blanks at the ends
+		{{"lic", "la  la"}, {"txt", "verse\t1"}, {"mrk", " a\nb "}},
 	}
 	n := 0
 	for ci, pairs := range cases {
